@@ -49,6 +49,54 @@ def pn(p):
     return {"persistent": bool(p)}
 
 
+DEFAULT_NAME = {"edge_length": "length", "edge_middle": "middle", "face_area": "area", "face_normals": "normals",
+                "face_bary": "barycenter", "circum": "circumcenter", "angles": "angles", "cot": "cotan", "cw": "cotan_weight",
+                "degree": "degree", "defects": "angleDefect", "vnormals": "normals", "vnormals_c": "normals",
+                "cell_volume": "volume", "cell_bary": "barycenter"}
+
+
+def acall(fn, mesh, nm, p, d, form, pre=()):
+    """one attribute function in one of three call forms: 0 keywords, 1 positional (mesh, *pre, name, persistent, dense),
+    2 every argument that equals its default omitted"""
+    pers = bool(p)
+    custom = isinstance(p, str)
+    if form == 1:
+        return fn(mesh, *pre, p if custom else DEFAULT_NAME[nm], pers, d)
+    if form == 2:
+        kw = {}
+        if custom:
+            kw["name"] = p
+        if not pers:
+            kw["persistent"] = False
+        if d is not True:
+            kw["dense"] = d
+        return fn(mesh, *pre, **kw)
+    return fn(mesh, *pre, dense=d, **pn(p))
+
+
+def num(n, form):
+    """an integer count in another numeric representation"""
+    if n is None:
+        return None
+    return [int(n), np.int64(n), np.int32(n)][form]
+
+
+def flag(b, form):
+    return [bool(b), int(bool(b)), np.bool_(b)][form]
+
+
+def attr_names(mesh):
+    out = set()
+    for cname in ("vertices", "edges", "faces", "face_corners", "cells", "cell_corners", "cell_faces"):
+        cont = getattr(mesh, cname, None)
+        if cont is not None:
+            try:
+                out |= {"%s.%s" % (cname, a) for a in cont.attributes}
+            except Exception:  # noqa
+                pass
+    return out
+
+
 def mk_attr(container, name, values, dense):
     a = container.create_attribute(name, float, dense=bool(dense))
     for i, v in enumerate(values):
@@ -57,7 +105,7 @@ def mk_attr(container, name, values, dense):
     return a
 
 
-def run_call(mesh, call, state):
+def run_call(mesh, call, state, form=0):
     from mouette import attributes as A
     nm = call[0]
     nv, ne, nf = len(mesh.vertices), len(mesh.edges), len(mesh.faces)
@@ -75,49 +123,49 @@ def run_call(mesh, call, state):
             return {"angles": [[fl(ang[c]), math.cos(fl(ang[c])), math.sin(fl(ang[c]))] for c in range(len(ref.face_corners))]}
         return {"angles": None}
     if nm == "edge_length":
-        return scal_list(A.edge_length(mesh, dense=call[2], **pn(call[1])), ne)
+        return scal_list(acall(A.edge_length, mesh, 'edge_length', call[1], call[2], form), ne)
     if nm == "edge_middle":
-        return vec_list(A.edge_middle_point(mesh, dense=call[2], **pn(call[1])), ne)
+        return vec_list(acall(A.edge_middle_point, mesh, 'edge_middle', call[1], call[2], form), ne)
     if nm == "face_area":
-        return scal_list(A.face_area(mesh, dense=call[2], **pn(call[1])), nf)
+        return scal_list(acall(A.face_area, mesh, 'face_area', call[1], call[2], form), nf)
     if nm == "face_normals":
-        return vec_list(A.face_normals(mesh, dense=call[2], **pn(call[1])), nf)
+        return vec_list(acall(A.face_normals, mesh, 'face_normals', call[1], call[2], form), nf)
     if nm == "face_bary":
-        return vec_list(A.face_barycenter(mesh, dense=call[2], **pn(call[1])), nf)
+        return vec_list(acall(A.face_barycenter, mesh, 'face_bary', call[1], call[2], form), nf)
     if nm == "circum":
-        return vec_list(A.face_circumcenter(mesh, dense=call[2], **pn(call[1])), nf)
+        return vec_list(acall(A.face_circumcenter, mesh, 'circum', call[1], call[2], form), nf)
     if nm == "angles":
-        return scal_list(A.corner_angles(mesh, dense=call[2], **pn(call[1])), ncorn)
+        return scal_list(acall(A.corner_angles, mesh, 'angles', call[1], call[2], form), ncorn)
     if nm == "cot":
-        return scal_list(A.cotangent(mesh, dense=call[2], **pn(call[1])), ncorn)
+        return scal_list(acall(A.cotangent, mesh, 'cot', call[1], call[2], form), ncorn)
     if nm == "cw":
-        return scal_list(A.cotan_weights(mesh, dense=call[2], **pn(call[1])), ne)
+        return scal_list(acall(A.cotan_weights, mesh, 'cw', call[1], call[2], form), ne)
     if nm == "degree":
-        d = A.degree(mesh, dense=call[2], **pn(call[1]))
+        d = acall(A.degree, mesh, "degree", call[1], call[2], form)
         return [int(d[i]) for i in range(nv)]
     if nm == "defects":
-        return scal_list(A.angle_defects(mesh, zero_border=call[1], dense=call[3], **pn(call[2])), nv)
+        return scal_list((acall(A.angle_defects, mesh, "defects", call[2], call[3], 1, pre=(flag(call[1], form),)) if form == 1 else A.angle_defects(mesh, zero_border=flag(call[1], form), dense=call[3], **pn(call[2]))), nv)
     if nm == "vnormals":
-        return vec_list(A.vertex_normals(mesh, interpolation=call[1], dense=call[3], **pn(call[2])), nv)
+        return vec_list((A.vertex_normals(mesh, call[2] if isinstance(call[2], str) else "normals", bool(call[2]), call[1], call[3]) if form == 1 else A.vertex_normals(mesh, interpolation=call[1], dense=call[3], **pn(call[2]))), nv)
     if nm == "vnormals_c":
         # [name, weight, custom face normals (one 3-vector per face), persistent, dense]: the caller's own face normals
         state["k"] = state.get("k", 0) + 1
         fn = mesh.faces.create_attribute("c07_fn_%d" % state["k"], float, 3, dense=bool(state["k"] % 2))
         for i, vec in enumerate(call[2]):
             fn[i] = np.array(vec, dtype=float)
-        return vec_list(A.vertex_normals(mesh, interpolation=call[1], dense=call[4], custom_fnormals=fn, **pn(call[3])), nv)
+        return vec_list((A.vertex_normals(mesh, call[3] if isinstance(call[3], str) else "normals", bool(call[3]), call[1], call[4], fn) if form == 1 else A.vertex_normals(mesh, interpolation=call[1], dense=call[4], custom_fnormals=fn, **pn(call[3]))), nv)
     if nm == "cell_volume":
-        return scal_list(A.cell_volume(mesh, dense=call[2], **pn(call[1])), ncell)
+        return scal_list(acall(A.cell_volume, mesh, 'cell_volume', call[1], call[2], form), ncell)
     if nm == "cell_bary":
-        return vec_list(A.cell_barycenter(mesh, dense=call[2], **pn(call[1])), ncell)
+        return vec_list(acall(A.cell_barycenter, mesh, 'cell_bary', call[1], call[2], form), ncell)
     if nm == "euler":
         return int(A.euler_characteristic(mesh))
     if nm == "mean_edge":
-        return fl(A.mean_edge_length(mesh, call[1]))
+        return fl(A.mean_edge_length(mesh, num(call[1], form)))
     if nm == "mean_area":
-        return fl(A.mean_face_area(mesh, call[1]))
+        return fl((A.mean_face_area(mesh, n=num(call[1], form)) if form == 2 else A.mean_face_area(mesh, num(call[1], form))))
     if nm == "mean_vol":
-        return fl(A.mean_cell_volume(mesh, call[1]))
+        return fl(A.mean_cell_volume(mesh, num(call[1], form)))
     if nm == "total_area":
         return fl(A.total_area(mesh))
     if nm == "bary":
@@ -139,15 +187,15 @@ def run_call(mesh, call, state):
         if nm == "v2f":
             r = A.interpolate_vertices_to_faces(mesh, a_in, a_out)
         elif nm == "f2v":
-            r = A.interpolate_faces_to_vertices(mesh, a_in, a_out, weight=w)
+            r = A.interpolate_faces_to_vertices(mesh, a_in, a_out, w) if form == 1 else A.interpolate_faces_to_vertices(mesh, a_in, a_out, weight=w)
         elif nm == "sv2c":
             r = A.scatter_vertices_to_corners(mesh, a_in, a_out)
         elif nm == "sf2c":
             r = A.scatter_faces_to_corners(mesh, a_in, a_out)
         elif nm == "c2v":
-            r = A.average_corners_to_vertices(mesh, a_in, a_out, weight=w)
+            r = A.average_corners_to_vertices(mesh, a_in, a_out, w) if form == 1 else A.average_corners_to_vertices(mesh, cattr=a_in, vattr=a_out, weight=w)
         else:
-            r = A.average_corners_to_faces(mesh, a_in, a_out, weight=w)
+            r = A.average_corners_to_faces(mesh, a_in, a_out, w) if form == 1 else A.average_corners_to_faces(mesh, a_in, a_out, weight=w)
         return scal_list(r, n_out)
     raise RuntimeError("unknown call " + nm)
 
@@ -168,12 +216,24 @@ def run_case(case):
         res["build_error"] = "%s: %s" % (type(ex).__name__, ex)
         return res
     state = {"case": {k: case.get(k) for k in ("V", "F", "C")}, "is_surface": not case.get("C")}
-    for call in case["script"]:
+    seed = len(case["V"]) + 3 * len(case["script"])
+    for k, call in enumerate(case["script"]):
+        form = (seed + k) % 3
+        before = attr_names(mesh)
+        vsnap = [tuple(float(x) for x in mesh.vertices[i]) for i in mesh.id_vertices]
         try:
             with np.errstate(all="ignore"):
-                res["out"].append({"ok": run_call(mesh, call, state)})
+                entry = {"ok": run_call(mesh, call, state, form)}
         except Exception as ex:  # noqa
-            res["out"].append({"err": "%s: %s" % (type(ex).__name__, str(ex)[:200])})
+            entry = {"err": "%s: %s" % (type(ex).__name__, str(ex)[:200])}
+        entry["form"] = form
+        after = attr_names(mesh)
+        entry["new"] = sorted(after - before)
+        entry["has"] = sorted(a for a in after if not a.split(".")[1].startswith("c07_"))
+        if call[0] != "move":
+            vnow = [tuple(float(x) for x in mesh.vertices[i]) for i in mesh.id_vertices]
+            entry["vmoved"] = vnow != vsnap
+        res["out"].append(entry)
     return res
 
 
